@@ -72,7 +72,9 @@ def build_proofs(ctx, mod):
             return info
         info["gen_summary"] = msg.strip().splitlines()[-5:]
         props_v = "theories/Props/%s.v" % ctx.prop
-        ok, log = common.make([props_v + "o"], force=[props_v])
+        # the property's cone plus the comparison functions the generated case files import
+        corr = sorted("theories/Corr/" + f + "o" for f in os.listdir(os.path.join(COQ, "theories", "Corr")) if f.endswith(".v"))
+        ok, log = common.make([props_v + "o"] + corr, force=[props_v])
         info["log"] = log
         info["ok"] = ok
     info["statements"] = common.count_statements(os.path.join(COQ, props_v))
